@@ -295,8 +295,13 @@ where
         // In the DISCARDING state, any incoming frames on the connection MUST
         // be silently discarded until the peer's close frame is received
         // (AMQP 1.0 section 2.4.6).
-        if matches!(self.connection.local_state(), ConnectionState::Discarding)
-            && !matches!(frame.body, FrameBody::Close(_))
+        //
+        // Likewise, once the local Close has been sent (CLOSE_SENT), frames of the peer that
+        // were still in flight are of no interest any more and only its Close is awaited.
+        if matches!(
+            self.connection.local_state(),
+            ConnectionState::Discarding | ConnectionState::CloseSent
+        ) && !matches!(frame.body, FrameBody::Close(_))
         {
             return Ok(Running::Continue);
         }
